@@ -12,6 +12,7 @@ import (
 	"runtime"
 	"runtime/debug"
 	"sort"
+	"strconv"
 	"strings"
 	"syscall"
 	"time"
@@ -137,7 +138,11 @@ func (t *transcript) step(name string, f func()) {
 				msg = msg[:400] + "..."
 			}
 			msg = strings.ReplaceAll(msg, "\n", "\\n")
-			line := fmt.Sprintf("PANIC %s %s || %s", name, msg, topFrames(debug.Stack(), 8))
+			after := ""
+			if t.status == "parse-error" {
+				after = " [after parse-error: partial AST]"
+			}
+			line := fmt.Sprintf("PANIC %s%s %s || %s", name, after, msg, topFrames(debug.Stack(), 8))
 			t.panics = append(t.panics, line)
 			t.b.WriteString(line + "\n")
 		}
@@ -382,6 +387,12 @@ func workerMain(args []string) {
 	// no core files, whatever happens
 	_ = syscall.Setrlimit(syscall.RLIMIT_CORE, &syscall.Rlimit{})
 	runtime.GOMAXPROCS(2)
+	if mb := os.Getenv("C02X_MAXSTACK_MB"); mb != "" {
+		// triage aid (minimising a stack overflow quickly); the default 1 GB limit is never changed otherwise
+		if n, err := strconv.Atoi(mb); err == nil && n > 0 {
+			debug.SetMaxStack(n << 20)
+		}
+	}
 
 	in := bufio.NewReaderSize(os.Stdin, 1<<20)
 	out := bufio.NewWriterSize(os.Stdout, 1<<16)
